@@ -174,6 +174,38 @@ def c14_oracle(S, obs):
     return None
 
 
+def shipped_stability():
+    """the shipped typesets are the same typesets whenever and in whatever order they are constructed (a shared, mutated
+    constant or a cache would make a later StandardSet() differ from the first), and stay strictly nested"""
+    fails = []
+    classes = {"StandardSet": StandardSet, "GeometrySet": GeometrySet, "CompleteSet": CompleteSet}
+    first = {}
+    n = 0
+    for perm in itertools.permutations(sorted(classes)):
+        for nm in list(perm) + list(reversed(perm)):
+            with warnings.catch_warnings():
+                warnings.simplefilter("ignore")
+                ts = classes[nm]()
+            n += 1
+            cur = (sorted(str(t) for t in ts.types),
+                   sorted((str(a), str(b), bool(d["relationship"].inferential)) for a, b, d in ts.relation_graph.edges(data=True)))
+            if nm not in first:
+                first[nm] = cur
+            elif cur != first[nm]:
+                extra = [t for t in cur[0] if t not in first[nm][0]]
+                gone = [t for t in first[nm][0] if t not in cur[0]]
+                for prop in ("C14", "C10"):
+                    fails.append({"property": prop, "signature": "shipped-typeset-depends-on-history",
+                                  "what": "%s() constructed after %s differs from the first %s() of the process: extra types %s, missing %s, %d vs %d relations"
+                                          % (nm, "/".join(perm), nm, extra, gone, len(cur[1]), len(first[nm][1]))})
+                return fails, n
+    std, geo, comp = (set(first[k][0]) for k in ("StandardSet", "GeometrySet", "CompleteSet"))
+    if not (std < geo < comp):
+        fails.append({"property": "C14", "signature": "shipped-typesets-not-strictly-nested",
+                      "what": "StandardSet / GeometrySet / CompleteSet are not strictly nested: %d, %d, %d types" % (len(std), len(geo), len(comp))})
+    return fails, n
+
+
 def run_graph(tier, seed):
     rng = rng_for(seed, "graph")
     n_closed = 1500 if tier == "quick" else 40000
@@ -237,6 +269,8 @@ def run_graph(tier, seed):
         if canon(mv) != canon(rv):
             disagreements.append({"kind": "graph", "order": case["order"], "real": rv, "model": mv})
     nontriv = set(s for s in seen if len(s) >= 2)
+    sfails, _ = shipped_stability()
+    fails.extend(sfails)
     return {"runner": "graph", "evaluations": len(cases), "distinct_nontrivial": len(nontriv),
             "rule": "shipped typesets, {Generic}, random parent-closed subsets and arbitrary subsets of the 24 types, "
                     "each under 3 explicit supply orders; non-trivial = distinct sets with >= 2 types",
@@ -528,6 +562,27 @@ def run_algebra(tier, seed):
         for b in base_ts:
             for op in ("add", "sub", "iadd", "isub"):
                 one_step(mk(a), op, mk(b), "%s %s %s" % (a, op, b))
+    # sums of two small typesets whose relations CROSS the operands (a relation's source in one, its target in the other):
+    # fixed pairs first, then random parent-closed pairs
+    def small(names):
+        with warnings.catch_warnings():
+            warnings.simplefilter("ignore")
+            return VisionsTypeset({BYNAME[n_] for n_ in names})
+    crossing = [(["Generic", "Float"], ["Generic", "Integer"]), (["Generic", "Float", "Integer"], ["Generic", "Object", "String"]),
+                (["Generic", "Object", "String"], ["Generic", "Boolean", "Float", "Complex", "DateTime"]), (["Generic", "Complex"], ["Generic", "Float", "Integer"]),
+                (["Generic", "Object", "String"], ["Generic", "Object", "URL", "UUID", "Path"]), (["Generic", "DateTime"], ["Generic", "Object", "Date"]),
+                (["Generic", "Integer", "Count"], ["Generic", "Float"]), (["Generic"], ["Generic", "Object", "String", "Float"])]
+    for an, bn in crossing:
+        for op in ("add", "iadd"):
+            one_step(small(an), op, small(bn), "{%s} %s {%s}" % (",".join(an), op, ",".join(bn)))
+            one_step(small(bn), op, small(an), "{%s} %s {%s}" % (",".join(bn), op, ",".join(an)))
+    for _ in range(40 if tier == "quick" else 600):
+        A_ = parent_closed_random(rng, types_all)
+        B_ = parent_closed_random(rng, types_all)
+        with warnings.catch_warnings():
+            warnings.simplefilter("ignore")
+            ta, tb = VisionsTypeset(set(A_)), VisionsTypeset(set(B_))
+        one_step(ta, rng.choice(["add", "iadd"]), tb, "{%s} + {%s}" % (",".join(sorted(map(str, A_))), ",".join(sorted(map(str, B_)))))
     # Type + Type
     pairs = list(itertools.product(types_all, types_all))
     if tier == "quick":
@@ -690,6 +745,42 @@ def run_export(tier, seed):
                                   "base_only": base_only})
                 if len(base) >= 2:
                     nontriv.add(canon([[str(t) for t in base], base_only]))
+        # user-defined types whose relation CLASS and `inferential` flag disagree (the flag is what the documented
+        # semantics and the traversal use: solid / base graph iff not inferential), exported in several supply orders
+        from visions.relations import IdentityRelation, InferenceRelation
+        from visions.types.type import VisionsBaseType
+
+        def mk_user(name, rels):
+            return type(name, (VisionsBaseType,), {"get_relations": staticmethod(rels),
+                                                   "contains_op": staticmethod(lambda item, state: False)})
+        UA = mk_user("UA", lambda: [IdentityRelation(Generic)])
+        UB = mk_user("UB", lambda: [InferenceRelation(UA, relationship=lambda x, s: False, transformer=lambda x, s: x, inferential=False)])
+        UC = mk_user("UC", lambda: [IdentityRelation(UA, inferential=True)])
+        UD = mk_user("UD", lambda: [IdentityRelation(Generic), InferenceRelation(UB, relationship=lambda x, s: False, transformer=lambda x, s: x)])
+        uset = [Generic, UA, UB, UC, UD]
+        for base_only in (False, True):
+            blobs = []
+            for oi, order in enumerate([uset, list(reversed(uset)), [UC, Generic, UD, UA, UB]]):
+                with warnings.catch_warnings():
+                    warnings.simplefilter("ignore")
+                    with ordered_sets():
+                        ts = VisionsTypeset(list(order))
+                fn = os.path.join(tmp, "u_%d_%d.dot" % (int(base_only), oi))
+                ts.output_graph(fn, base_only=base_only)
+                blobs.append(open(fn, "rb").read())
+                evals += 1
+                nodes, edges = parse_dot(fn)
+                want_edges = sorted((str(r.related_type), str(t), "dashed" if r.inferential else "solid")
+                                    for t in uset for r in t.get_relations() if (not base_only or not r.inferential))
+                if nodes != sorted(str(t) for t in uset) or edges != want_edges:
+                    fails.append({"property": "C19", "signature": "export-content-user-types",
+                                  "what": "user-defined types (relation class and `inferential` flag disagree): exported edges %s, the typeset's relations are %s"
+                                          % ([e for e in edges if e not in want_edges][:4] or edges[:6], [e for e in want_edges if e not in edges][:4] or want_edges[:6]),
+                                  "base_only": base_only})
+                os.unlink(fn)
+            if len(set(blobs)) != 1:
+                fails.append({"property": "C19", "signature": "export-order-dependent", "what": "DOT bytes differ between supply orders (user types)",
+                              "base_only": base_only})
     finally:
         shutil.rmtree(tmp, ignore_errors=True)
     resps = Driver().batch(reqs)
